@@ -2,19 +2,305 @@
 C13 -- start/stop/signal RPC answers agree with what happened to the process.
 L2: real SupervisorNamespaceRPCInterface calls executed inside the real main loop (at the place of the XML-RPC channel), deferred
 answers polled by the loop, all eight states at request time, both wait modes, group/all forms (monitors) and single forms (model).
+L1 (make_allfunc): the real closure returned by supervisor.rpcinterface.make_allfunc driven with scripted predicate / func /
+callbacks over dummy (group, process) pairs, invocation by invocation against the Lean model Model/AllFunc.lean, plus monitors.
 """
+import itertools, re
 from props import l2common
 import l2
 
 ID = 'C13'
 LEAN_PROPS = 'SupervisorModel.Props.C13'
-DRIVER = 'drv_c02'
-GENERATED = ['Proc', 'Sup']
-TRUSTED = l2common.TRUSTED
+DRIVER = 'drv_c13'
+GENERATED = ['Proc', 'Sup', 'AllFunc']
+TRUSTED = l2common.TRUSTED + [
+    "Model/AllFunc.lean: the environment of make_allfunc's closure is an input (for each list position: the predicate's answer when "
+    "tested, what func does when called -- raises RPCError / returns a function / returns a value --, what the k-th poll of its callback "
+    "does); exceptions other than RPCError escaping func or a callback, and func handing back NOT_DONE_YET itself, are outside the model",
+    "identity of a pending (group, process, callback) tuple = list position of its process: func hands back a new function object at every "
+    "call (startProcess/stopProcess define `onwait` in their body), so `callbacks.remove(struct)` removes that very tuple",
+    "the caller follows the deferred-response protocol (DeferredXMLRPCResponse.more / multicall): the closure is invoked again only "
+    "while it answered NOT_DONE_YET (AllFunc.run); that every single-process call inside a group call behaves as the single-call "
+    "theorems say is the composition of the two models, exercised by the L2 monitor mon_c13_groups, not a theorem",
+]
 ASSUMPTIONS = ["deferred callbacks are polled once per pass by the channel (as medusa does when the channel is writable)"]
-RULE = ("scenarios as for C02 with an RPC in about half of the passes (start/stop/signal on name, group:name, group:*, unknown names, "
+RULE = ("L2: scenarios as for C02 with an RPC in about half of the passes (start/stop/signal on name, group:name, group:*, unknown names, "
         "start/stopAllProcesses; wait true/false), children dying before/after startsecs and during the deferred wait, spawn failures, missing "
-        "command files; non-trivial = at least one RPC answered; distinct = distinct trace")
+        "command files; non-trivial = at least one RPC answered; distinct = distinct trace.  "
+        "make_allfunc: a regression corpus, every list of up to 3 processes over {eligible, not} x {value, fault, callback done at poll 1/2/3 "
+        "with value or fault}, and random lists of 0-6 (group, process) pairs (duplicate pairs and group == name included) with random "
+        "predicate answers (False or None for 'no'), immediate outcomes, poll scripts of 1-5 polls ending in a value or a fault, and keyword "
+        "arguments; the real closure is invoked until it answers; non-trivial = at least one eligible process; distinct = distinct case line")
+
+
+# ---------------------------------------------------------------------------------------------- make_allfunc (L1)
+
+FAULT_CODES = [6, 10, 11, 20, 21, 30, 40, 50, 60, 70, 2]
+MAX_EXTRA_INVOCATIONS = 3
+
+
+def _tok(s):
+    return re.sub(r'[^A-Za-z0-9_]', '_', str(s))
+
+
+def allfunc_case_line(procs):
+    """procs: [dict(group, name, elig, imm=('V',)|('D',)|('R', code, extra), polls=[('N',)|('V',)|('R', code, extra)])]"""
+    from supervisor.xmlrpc import RPCError
+    def oc(o):
+        return o[0] if o[0] != 'R' else 'R%d:%s' % (o[1], _tok(RPCError(o[1], o[2]).text))
+    return 'case allfunc ' + ' '.join('%s/%s/%d/%s/%s' % (p['group'], p['name'], 1 if p['elig'] else 0, oc(p['imm']), ';'.join(oc(o) for o in p['polls']))
+                                      for p in procs)
+
+
+def run_allfunc(procs, kwargs, falsy=False):
+    """drive the real closure; returns (lines, facts) -- one canonical line per invocation and what the monitors need"""
+    import types
+    from supervisor.rpcinterface import make_allfunc
+    from supervisor.xmlrpc import RPCError
+    from supervisor.http import NOT_DONE_YET
+
+    class Cfg(object):
+        def __init__(self, name, priority):
+            self.name = name; self.priority = priority
+
+    class Obj(object):
+        """stands for a ProcessGroup / Subprocess: carries config.name only; compares by priority as the real classes do"""
+        def __init__(self, name, priority, idx=None):
+            self.config = Cfg(name, priority); self.idx = idx
+        def __eq__(self, other):
+            return self.config.priority == other.config.priority
+        def __lt__(self, other):
+            return self.config.priority < other.config.priority
+        __hash__ = object.__hash__
+
+    log, cur, polled = [], [None], {}
+    facts = dict(calls=[], polls=[], kw_bad=0, overrun=[], inv_of_call=[])
+    inv = [0]
+
+    def predicate(process):
+        log.append('t%d' % process.idx)
+        cur[0] = process.idx
+        return True if procs[process.idx]['elig'] else (None if falsy else False)
+
+    def make_cb(i):
+        def cb():
+            k = polled.get(i, 0)
+            polled[i] = k + 1
+            log.append('p%d' % i)
+            facts['polls'].append((inv[0], i, k))
+            script = procs[i]['polls']
+            if k >= len(script):
+                facts['overrun'].append(i)
+                log[-1] += '!again'
+                o = script[-1]
+            else:
+                o = script[k]
+            if o[0] == 'N':
+                return NOT_DONE_YET
+            if o[0] == 'R':
+                raise RPCError(o[1], o[2])
+            return True
+        assert isinstance(cb, types.FunctionType)
+        return cb
+
+    def func(name, **kw):
+        i = cur[0]
+        log.append('c%d=%s' % (i, name))
+        facts['calls'].append(i)
+        facts['inv_of_call'].append(inv[0])
+        if kw != kwargs:
+            facts['kw_bad'] += 1
+        o = procs[i]['imm']
+        if o[0] == 'R':
+            raise RPCError(o[1], o[2])
+        if o[0] == 'D':
+            return make_cb(i)
+        return True
+
+    groups = {}
+    pairs = []
+    for i, p in enumerate(procs):
+        g = groups.setdefault(p['group'], Obj(p['group'], p.get('gprio', 999)))
+        pairs.append((g, Obj(p['name'], p.get('prio', 999), i)))
+    allfunc = make_allfunc(pairs, predicate, func, **kwargs)
+    lines, value = [], NOT_DONE_YET
+    limit = 1 + max([len(p['polls']) for p in procs] + [0]) + MAX_EXTRA_INVOCATIONS
+    while value is NOT_DONE_YET and inv[0] < limit:
+        inv[0] += 1
+        del log[:]
+        try:
+            value = allfunc()
+        except Exception as ex:      # nothing but RPCError is scripted, and the closure catches those
+            value = 'exception %s' % type(ex).__name__
+        if value is NOT_DONE_YET:
+            ans = 'NOT_DONE_YET'
+        elif isinstance(value, list):
+            ans = ' '.join(['results'] + ['%s:%s:%s:%s' % (_tok(e.get('name')), _tok(e.get('group')), e.get('status'), _tok(e.get('description')))
+                                          if isinstance(e, dict) else 'not-a-struct' for e in value])
+        else:
+            ans = str(value)
+        lines.append(ans + ' | ' + ' '.join(log))
+    facts['answer'] = value if isinstance(value, list) else None
+    facts['answered'] = value is not NOT_DONE_YET
+    facts['invocations'] = inv[0]
+    return lines, facts
+
+
+def expected_entry(p):
+    """what the single call for this process reported in the end: (status, description)"""
+    from supervisor.xmlrpc import RPCError, Faults
+    o = p['imm']
+    if o[0] == 'D':
+        o = next(x for x in p['polls'] if x[0] != 'N')
+    if o[0] == 'R':
+        return o[1], RPCError(o[1], o[2]).text
+    return Faults.SUCCESS, 'OK'
+
+
+def mon_allfunc(ctx, procs, kwargs, facts, inp):
+    """the last sentence of C13 over the observables of the real closure (independent of the model)"""
+    def bad(kind, what):
+        ctx.violation('allfunc-' + kind, what, inp)
+    elig = [i for i, p in enumerate(procs) if p['elig']]
+    if not facts['answered']:
+        bad('never-answers', 'still NOT_DONE_YET after %d invocations although every callback had completed by poll %d'
+            % (facts['invocations'], max([len(p['polls']) for p in procs] + [0])))
+    if facts['answer'] is not None:
+        got = sorted((e.get('group'), e.get('name')) for e in facts['answer'] if isinstance(e, dict))
+        want = sorted((procs[i]['group'], procs[i]['name']) for i in elig)
+        if got != want or len(got) != len(facts['answer']):
+            bad('entries-not-one-per-eligible', 'entries for %r, eligible processes %r' % (got, want))
+        else:
+            gote = sorted((e['group'], e['name'], e.get('status'), e.get('description')) for e in facts['answer'])
+            wante = sorted((procs[i]['group'], procs[i]['name']) + expected_entry(procs[i]) for i in elig)
+            if gote != wante:
+                bad('status-differs-from-single-call', 'entries %r, the single calls reported %r' % (gote, wante))
+        # the answer must not come before every deferred single call has said something other than NOT_DONE_YET
+        for i in elig:
+            if procs[i]['imm'][0] == 'D':
+                done_at = next(k for k, x in enumerate(procs[i]['polls']) if x[0] != 'N')
+                if not any(pi == i and k == done_at for _, pi, k in facts['polls']):
+                    bad('answered-while-pending', 'answered although the callback of process %d had only said NOT_DONE_YET' % i)
+                    break
+    calls = facts['calls']
+    if len(set(calls)) != len(calls):
+        bad('func-called-twice', 'func called for positions %r' % calls)
+    elif any(i not in elig for i in calls):
+        bad('func-called-for-ineligible', 'func called for %r, eligible %r' % (calls, elig))
+    elif calls != elig and facts['answered']:
+        bad('func-not-called-for-eligible', 'func called for %r, eligible %r' % (calls, elig))
+    if any(n != 1 for n in facts['inv_of_call']):
+        bad('func-called-late', 'func called in invocations %r' % facts['inv_of_call'])
+    if facts['kw_bad']:
+        bad('kwargs-lost', 'func did not receive the keyword arguments %r' % kwargs)
+    if facts['overrun']:
+        bad('callback-polled-after-completion', 'callbacks of %r polled again after they had completed' % facts['overrun'])
+    per_inv = {}
+    for n, i, k in facts['polls']:
+        per_inv.setdefault((n, i), []).append(k)
+    if any(len(v) > 1 for v in per_inv.values()):
+        bad('callback-polled-twice-in-one-invocation', 'polls %r' % facts['polls'])
+
+
+ALLFUNC_CORPUS = [
+    # completion out of list order; a fault while polling; an immediate fault; an ineligible process in between
+    ([dict(group='g', name='a', elig=True, imm=('D',), polls=[('N',), ('N',), ('V',)]),
+      dict(group='g', name='b', elig=True, imm=('D',), polls=[('N',), ('V',)]),
+      dict(group='g', name='x', elig=False, imm=('V',), polls=[]),
+      dict(group='h', name='c', elig=True, imm=('D',), polls=[('R', 40, None)]),
+      dict(group='h', name='h', elig=True, imm=('R', 60, 'h'), polls=[])], dict(wait=True)),
+    # everything immediate
+    ([dict(group='g', name='a', elig=True, imm=('V',), polls=[]), dict(group='g', name='b', elig=True, imm=('R', 70, 'g:b'), polls=[])], dict(signal='HUP')),
+    # nothing eligible; empty list
+    ([dict(group='g', name='a', elig=False, imm=('D',), polls=[('V',)]), dict(group='g', name='b', elig=False, imm=('V',), polls=[])], {}),
+    ([], dict(wait=False)),
+    # the last of three completes first, the first last (seeded change C13-4: pop(0) for remove(struct))
+    ([dict(group='g', name='a', elig=True, imm=('D',), polls=[('N',), ('N',), ('N',), ('V',)]),
+      dict(group='g', name='b', elig=True, imm=('D',), polls=[('N',), ('N',), ('R', 50, 'g:b')]),
+      dict(group='g', name='c', elig=True, imm=('D',), polls=[('V',)])], dict(wait=True)),
+    # two adjacent callbacks complete in the same invocation (iteration over the live list would skip the second)
+    ([dict(group='g', name='a', elig=True, imm=('D',), polls=[('V',)]), dict(group='g', name='b', elig=True, imm=('D',), polls=[('V',)]),
+      dict(group='g', name='c', elig=True, imm=('D',), polls=[('N',), ('V',)])], dict(wait=True)),
+    # the same (group, process) pair twice in the list, equal priorities
+    ([dict(group='g', name='a', elig=True, imm=('D',), polls=[('N',), ('V',)]), dict(group='g', name='a', elig=True, imm=('D',), polls=[('V',)]),
+      dict(group='g', name='a', elig=True, imm=('V',), polls=[])], {}),
+]
+
+SMALL_OUTCOMES = [(('V',), []), (('R', 70, 'x'), []), (('D',), [('V',)]), (('D',), [('N',), ('V',)]), (('D',), [('R', 30, 'y')]),
+                  (('D',), [('N',), ('N',), ('R', 40, None)])]
+SMALL_NAMES = [('g', 'a'), ('g', 'b'), ('h', 'h')]
+
+
+def small_scope():
+    opts = [(e, o) for e in (True, False) for o in SMALL_OUTCOMES]
+    for n in range(0, 4):
+        for combo in itertools.product(opts, repeat=n):
+            yield [dict(group=SMALL_NAMES[i][0], name=SMALL_NAMES[i][1], elig=e, imm=imm, polls=list(polls)) for i, (e, (imm, polls)) in enumerate(combo)], dict(wait=True)
+
+
+def gen_allfunc(rng):
+    n = rng.choice([0, 1, 2, 2, 3, 3, 4, 4, 5, 6])
+    mode = rng.random()
+    procs = []
+    for i in range(n):
+        g = rng.choice(['g', 'g', 'h', 'w'])
+        nm = rng.choice(['a', 'b', 'c', 'd', 'e', g])
+        elig = True if mode < 0.15 else (False if mode < 0.2 else rng.random() < 0.7)
+        r = rng.random()
+        if mode > 0.9:
+            r = rng.random() * 0.4          # everything immediate
+        def fault():
+            return ('R', rng.choice(FAULT_CODES), rng.choice([None, nm, '%s:%s' % (g, nm)]))
+        if r < 0.2:
+            imm, polls = ('V',), []
+        elif r < 0.4:
+            imm, polls = fault(), []
+        else:
+            imm = ('D',)
+            polls = [('N',)] * rng.choice([0, 0, 1, 1, 2, 3, 4]) + [fault() if rng.random() < 0.3 else ('V',)]
+        procs.append(dict(group=g, name=nm, elig=elig, imm=imm, polls=polls, prio=rng.choice([1, 999]), gprio=999))
+    kwargs = rng.choice([dict(wait=True), dict(wait=False), dict(signal='HUP'), {}])
+    return procs, kwargs
+
+
+def allfunc_population(ctx):
+    for procs, kw in ALLFUNC_CORPUS:
+        yield 'corpus', procs, kw
+    if not ctx.searching:
+        for procs, kw in small_scope():
+            yield 'small', procs, kw
+    for _ in range(ctx.n(4000, 80000)):
+        procs, kw = gen_allfunc(ctx.rng)
+        yield 'random', procs, kw
+
+
+def run_allfunc_cases(ctx, population):
+    cases, impls = [], []
+    for origin, procs, kw in population:
+        falsy = (len(procs) % 2 == 1)
+        lines, facts = run_allfunc(procs, kw, falsy)
+        inp = dict(allfunc=dict(procs=procs, kwargs=kw, falsy=falsy))
+        mon_allfunc(ctx, procs, kw, facts, inp)
+        case = allfunc_case_line(procs)
+        cases.append((case, ['invoke'] * len(lines))); impls.append(lines)
+        nelig = sum(1 for p in procs if p['elig'])
+        ndef = sum(1 for p in procs if p['elig'] and p['imm'][0] == 'D')
+        ctx.count('allfunc:origin:' + origin)
+        ctx.count('allfunc:n=%d' % len(procs)); ctx.count('allfunc:eligible=%d' % nelig); ctx.count('allfunc:invocations=%d' % facts['invocations'])
+        ctx.count('allfunc:deferred=%d' % ndef)
+        for p in procs:
+            if p['elig']:
+                ctx.count('allfunc:outcome:' + (p['imm'][0] if p['imm'][0] != 'D' else 'D-' + p['polls'][-1][0]))
+        if facts['answer'] is not None and ndef >= 2:
+            order = [i for _, i, k in facts['polls'] if procs[i]['polls'][min(k, len(procs[i]['polls']) - 1)][0] != 'N']
+            ctx.count('allfunc:completion-' + ('in-list-order' if order == sorted(order) else 'out-of-list-order'))
+        if len(set((p['group'], p['name']) for p in procs)) < len(procs):
+            ctx.count('allfunc:duplicate-pairs')
+        ctx.case_done(case, nontrivial=nelig > 0)
+        if origin == 'corpus' and len(ctx.samples) < 4:
+            ctx.sample({'allfunc_case': case, 'impl_lines': lines})
+    if cases:
+        ctx.correspond('allfunc', cases, impls)
 
 
 def dense_rpc(ctx, group_forms):
@@ -31,17 +317,38 @@ def dense_rpc(ctx, group_forms):
 
 
 def run(ctx):
+    run_allfunc_cases(ctx, allfunc_population(ctx))
     mons = [l2.mon_c13, l2.mon_c13_groups, l2.mon_c02, l2.mon_c06]
     l2common.run_all(ctx, dense_rpc(ctx, False), mons, correspond=True)
     l2common.run_all(ctx, dense_rpc(ctx, True), mons, correspond=False)
 
 
 def replay(ctx, data):
+    af = data['input'].get('allfunc') if isinstance(data.get('input'), dict) else None
+    if af is not None:
+        def tup(o):
+            return tuple(o)
+        procs = [dict(p, imm=tup(p['imm']), polls=[tup(o) for o in p['polls']]) for p in af['procs']]
+        lines, facts = run_allfunc(procs, af['kwargs'], af.get('falsy', False))
+        mon_allfunc(ctx, procs, af['kwargs'], facts, dict(allfunc=af))
+        ctx.correspond('allfunc', [(allfunc_case_line(procs), ['invoke'] * len(lines))], [lines])
+        return
     l2common.replay(ctx, data, [l2.mon_c13, l2.mon_c13_groups, l2.mon_c02, l2.mon_c06])
 
 
-TECHNIQUE = "Lean 4 theorems on the RPC layer of the process/daemon model (answers vs forks/signals/states, for all states and environment answers) + correspondence with the real rpcinterface executed inside the unmodified main loop"
-LEVEL_TEXT = ("start_forks_only_if_eligible, start_true_sound, start_error_codes, stop_not_running_exact, signal_exact and the deferred-answer soundness "
-              "lemmas are proved for every process state, mood and environment answer; group/all forms are checked by the monitor")
-LEVEL_NOTE = "make_allfunc (group/all forms) is exercised by monitors, not modelled in Lean"
+TECHNIQUE = ("Lean 4 theorems on the RPC layer of the process/daemon model (answers vs forks/signals/states, for all states and environment "
+             "answers) and on an executable model of make_allfunc's closure (invariant over every process list, predicate, single-call outcome "
+             "and schedule of callback completions) + correspondence with the real rpcinterface executed inside the unmodified main loop and "
+             "with the real make_allfunc closure driven invocation by invocation")
+LEVEL_TEXT = ("start_forks_only_if_eligible, start_true_sound, stop_not_running_exact, stop_true_sound, signal_exact and the deferred-answer soundness "
+              "lemmas are proved for every process state, mood and environment answer.  Group/all forms: group_conservation (at every moment each "
+              "eligible process is pending or has exactly one entry, equal to what its single call reported), group_entries_exact / "
+              "group_one_entry_per_eligible (the final answer, as a permutation statement), group_answer_iff_pending, group_results_grow, "
+              "group_func_called_once, group_polls_once_per_invocation are proved for every environment and every number of invocations; "
+              "the tests, returned values and entry fields of the closure, the loop-over-a-copy / remove(struct) structure, the three predicates "
+              "and the predicate/method pairing of the six public methods are regenerated from /repo on every run")
+LEVEL_NOTE = ("the group theorems are about make_allfunc's closure with the behaviour of the single calls as an arbitrary input; that the "
+              "single calls made inside a group call behave as the single-call theorems say (composition with Model/Sup.lean, where each call "
+              "also reaps) is checked by the L2 monitor mon_c13_groups, not proved; that the call eventually answers when every callback "
+              "eventually completes is checked by the monitor (allfunc-never-answers), not proved")
 DESIGN_REF = "DESIGN.md section 6, C13"
